@@ -635,6 +635,20 @@ class Evolver:
             self.counter += 1
             self.doc["notifications"].append({"method": f"vf/nested{self.counter}", "messageDirection": "both", "params": {"kind": "reference", "name": owner}})
             self.edits.append({"edit": "E6-new-message", "method": f"vf/nested{self.counter}", "request": False})
+            # a structure that comes back to itself through an *optional* property of a required literal; it is the params of
+            # a notification and the result of a request (so that test vectors must exist for both)
+            tree = self.fresh_type_name("VfTree")
+            self.doc["structures"].append({"name": tree, "properties": [
+                {"name": "label", "type": S_},
+                {"name": "meta", "type": L_([{"name": "parent", "type": {"kind": "reference", "name": tree}, "optional": True}, {"name": "depth", "type": U_}])}]})
+            self.new_structs.append(tree)
+            self.edits.append({"edit": "E1-new-structure", "name": tree, "properties": ["label", "meta"]})
+            self.counter += 1
+            self.doc["notifications"].append({"method": f"vf/treeChanged{self.counter}", "messageDirection": "both", "params": {"kind": "reference", "name": tree}})
+            self.doc["requests"].append({"method": f"vf/treeResolve{self.counter}", "messageDirection": "clientToServer", "params": {"kind": "reference", "name": tree},
+                                         "result": {"kind": "reference", "name": tree}})
+            self.edits.append({"edit": "E6-new-message", "method": f"vf/treeChanged{self.counter}", "request": False})
+            self.edits.append({"edit": "E6-new-message", "method": f"vf/treeResolve{self.counter}", "request": True})
             return
         if focus == "result-name-collision":
             # a request `<X>Request` whose result is built from a declared structure called `<X>Result` (the name the python
